@@ -58,6 +58,11 @@ Defs == <<
   \* parameters named like things the call itself puts into scope
   [name |-> "param-named-inputs",         setup |-> <<EAsg("f", ELam(<<Req("inputs"), Req("x")>>, EList(<<EId("inputs"), X>>)))>>, call |-> "two"],
   [name |-> "param-named-like-itself",    setup |-> <<EAsg("f", ELam(<<Req("f")>>, Plus(F, N(1))))>>, call |-> "one"],
+  \* an optional parameter left without an argument is null, whatever else its name is bound to around it
+  [name |-> "optional-named-like-itself-omitted", setup |-> <<EAsg("g", N(10)), EAsg("f", ELam(<<Req("x"), Prm("f", "opt")>>, EList(<<X, F, G>>)))>>, call |-> "one"],
+  [name |-> "optional-named-inputs-omitted",      setup |-> <<EAsg("f", ELam(<<Req("x"), Prm("inputs", "opt")>>, EList(<<X, EId("inputs")>>)))>>, call |-> "one"],
+  [name |-> "optional-named-like-earlier-param",  setup |-> <<EAsg("f", ELam(<<Req("x"), Prm("x", "opt")>>, EList(<<X>>)))>>, call |-> "one"],
+  [name |-> "optional-named-like-a-capture-omitted", setup |-> <<EAsg("g", N(10)), EAsg("f", ELam(<<Req("x"), Prm("g", "opt")>>, EList(<<X, G>>)))>>, call |-> "one"],
   [name |-> "param-named-like-itself-2",  setup |-> <<EAsg("g", N(10)), EAsg("f", ELam(<<Req("x"), Prm("f", "opt")>>, EList(<<X, F, G>>)))>>, call |-> "two"],
   \* the function re-entered during its own call, a same-named local of the calling level in between
   [name |-> "recursive-shadowed-capture", setup |-> <<EAsg("g", N(10)), EAsg("f", ELam(<<Req("x")>>, EIf(EBin("eq", X, N(0)), G, EDo(<<EAsg("g", N(99))>>, ECall(F, <<EBin("sub", X, N(1))>>)))))>>, call |-> "one"],
